@@ -230,6 +230,108 @@ class C05(core.Check):
             fails.append(('no-413', 'body of %d bytes read to the end under maxbytes=%d without 413' % (len(eff), maxb)))
         return fails
 
+    # ---------------- the glue around the reader: which length a whole request gives it ----------------
+    def extra(self):
+        """whole requests through the WSGI stack on an UNCLAMPED connection (the body is followed by a pipelined
+        request; the server does not cut the stream at Content-Length): Content-Length with and without a
+        non-chunked Transfer-Encoding, request.body.maxbytes, socket fragmentation, buffer sizes; the page handler
+        runs an operation sequence on request.body.  Judged by the oracle only (exact prefix, complete after
+        read(), nothing consumed past Content-Length, 413 exactly when the body exceeds maxbytes)."""
+        import json as _json
+        import cherrypy
+        from ..impl import wsgi
+        rng = self.rng
+        out = []
+        box = {}
+
+        class Root:
+            @cherrypy.expose
+            def index(self):
+                b = cherrypy.request.body
+                res = []
+                for k, a in box['ops']:
+                    if k == 'read':
+                        res.append(b.read(a))
+                    elif k == 'readline':
+                        res.append(b.readline(a))
+                    elif k == 'readlines':
+                        res.append(b''.join(b.readlines(a)))
+                    elif k == 'next':
+                        try:
+                            res.append(next(b))
+                        except StopIteration:
+                            res.append(b'')
+                box['got'] = b''.join(res)
+                return b'ok'
+        wsgi.quiet_cherrypy()
+        n = 400 if self.tier == 'quick' else 6000
+        for i in range(n):
+            body = self.gen_bytes(rng)
+            maxb = rng.choice([0, 0, 0, max(0, len(body) - 1), len(body), len(body) + 3])
+            bufsize = rng.choice([1, 2, 7, 64, 8192])
+            te = rng.choice([None, None, 'identity', 'gzip', 'x-unknown', 'Identity'])
+            ops = [[rng.choice(['read', 'readline', 'readlines', 'next']), rng.choice([None, None, 1, 2, 5, 100])]
+                   for _ in range(rng.randrange(0, 4))] + [['read', None]]
+            ops = [[k, (a if k != 'next' else None)] for k, a in ops]
+            pipelined = rng.choice([b'', b'GET /next HTTP/1.1\r\nHost: x\r\n\r\n', b'\n\n', b'X' * 50])
+            hdrs = [('Content-Type', 'application/octet-stream'), ('Content-Length', str(len(body)))]
+            if te:
+                hdrs.append(('Transfer-Encoding', te))
+            conf = {'/': {'request.body.bufsize': bufsize, 'tools.encode.on': False}}
+            if maxb:
+                conf['/']['request.body.maxbytes'] = maxb
+            app = wsgi.make_app(Root(), conf)
+            env, _, rej = wsgi.build_environ('POST', '/', hdrs, body, 'HTTP/1.1')
+            frags = [rng.randrange(1, 9) for _ in range(rng.randrange(0, 30))] if rng.random() < .6 else []
+            inp = wsgi.Input(body + pipelined, None, frags)       # not clamped at Content-Length
+            env['wsgi.input'] = inp
+            box.clear()
+            box['ops'] = ops
+            status = [None]
+
+            def sr(st, h, exc_info=None):
+                status[0] = int(st[:3])
+                return lambda d: None
+            try:
+                it = app(env, sr)
+                list(it)
+                if hasattr(it, 'close'):
+                    it.close()
+            except Exception as e:          # noqa
+                status[0] = 'escaped %r' % (e,)
+            self.count('whole requests on an unclamped connection')
+            self.count('  transfer-encoding=%s' % te)
+            case = {'k': 'request', 'body': body, 'te': te, 'maxb': maxb, 'bufsize': bufsize, 'ops': ops,
+                    'frags': frags, 'pipelined': pipelined}
+            obs = {'status': status[0], 'got': box.get('got'), 'consumed': inp.pos}
+            bad = None
+            if inp.pos > len(body):
+                bad = ('request:overread', 'Content-Length %d, Transfer-Encoding %r: %d bytes were consumed from the '
+                       'connection (the pipelined request was eaten)' % (len(body), te, inp.pos))
+            elif maxb and len(body) > maxb:
+                if status[0] != 413:
+                    bad = ('request:no-413', 'body of %d bytes under request.body.maxbytes=%d answered %r'
+                           % (len(body), maxb, status[0]))
+            elif status[0] != 200:
+                bad = ('request:status', 'a well-formed request was answered %r' % (status[0],))
+            elif box.get('got') != body:
+                bad = ('request:body-differs', 'the handler read %r..., the body is %r...'
+                       % ((box.get('got') or b'')[:40], body[:40]))
+            if bad:
+                out.append(core.Violation(bad[0], bad[1], case=case, observed=obs))
+                if len(out) >= 3:
+                    break
+        seen, uniq = set(), []
+        for v in out:
+            if v.signature not in seen:
+                seen.add(v.signature)
+                uniq.append(v)
+        return uniq
+
+    def gen_bytes(self, rng):
+        n = rng.choice([0, 1, 2, 5, 17, 64, 200])
+        return bytes(rng.choice(b'ab\n\r x') for _ in range(n))
+
     def nontrivial(self, c, obs):
         n = sum(len(o[1]) if o and o[0] == 0 else (sum(map(len, o[1])) if o and o[0] == 1 else 0)
                 for st, o in obs['outs'] if st == 0)
